@@ -7,7 +7,10 @@ CHECKS = {
         'Router.handleMessage: one call on the computed destination with the copy intact (requeuer: counter exactly +1 below MaxInt64, 0 when missing/malformed) and '
         'nowhere else, once per delivery; Ack iff the destination accepted, only after its successful return; Nack on error or panic; invalid envelopes never forwarded and '
         'settled per AckWhenCannotUnwrap; wrap->unwrap and Publisher->Forwarder end to end restore topic and message (exactly for valid UTF-8). Refuted with witnesses: '
-        'non-UTF-8 strings through the JSON envelope (known finding), counter at MaxInt64, nil metadata map at the requeuer. Tied to the code on every run: ~1500 generated '
+        'non-UTF-8 strings through the JSON envelope (known finding), counter at MaxInt64, nil metadata map at the requeuer, same-object redelivery counting attempts. '
+        'Redelivery (any number of attempts, by induction): from a GoChannel-like source every attempt relays an intact copy of the ORIGINAL, the destination accepts at most once, nothing is relayed after an Ack, '
+        'the requeuer counter rises once per successful requeue over any number of rounds; FanIn/FanOut stream and per-source multiset preservation under faults at any index; the relay as consumer of a GoChannel '
+        'subscription composed with the Layer A invariant (at most once per publication, acked => relayed, nacked => offered again); the global codec law has a concrete injective instance. Tied to the code on every run: ~1500 generated '
         'cases through the REAL Forwarder (+ its Publisher), FanIn, Requeuer and FanOut (real internal GoChannel) on real Routers with scripted source and destination, '
         '1..8 messages in flight, destination faults at every call index, 26 envelope shapes (valid-but-odd, truncated, wrong types, missing topic), metadata edge cases; '
         'per-message traces compared with the model and judged by the proved acceptor.'),
